@@ -370,6 +370,52 @@ def leg_c(ctx, rng, n, formats=("coo", "gcxs", "dok")):
             core.log(f"C02 leg C {k}/{n}")
 
 
+def leg_c_long_arrays(ctx, rng, n):
+    """an index array with MORE entries than a narrow coordinate type can count (so necessarily with repeats): the result axis is
+    longer than every axis of the operand; operands with int8 / uint8 / default coordinates in every format"""
+    import sparse
+
+    for k in range(n):
+        shp = gen.shape(rng, 1, 3, extents=[1, 2, 3, 5, 7])
+        if 0 in shp:
+            continue
+        fill = int(rng.choice([0, 0, 3]))
+        d = gen.dense(rng, shp, fill)
+        idt = [np.int8, np.uint8, None][int(rng.integers(3))]
+        base = sparse.COO.from_numpy(d, fill_value=fill)
+        if idt is not None:
+            base = sparse.COO(base.coords.astype(idt), base.data, shape=base.shape, fill_value=fill, sorted=True, has_duplicates=False)
+        for fmt in ("coo", "gcxs", "dok"):
+            if fmt == "coo":
+                x = base
+            elif fmt == "dok":
+                x = sparse.DOK.from_coo(base)
+            else:
+                ch = gen.compressed_axes_choices(len(shp))
+                ca = ch[int(rng.integers(len(ch)))]
+                x = sparse.GCXS.from_coo(base, compressed_axes=ca, idx_dtype=idt) if ca is not None else sparse.GCXS.from_coo(base, idx_dtype=idt)
+            ax = int(rng.integers(len(shp)))
+            m = int(rng.choice([127, 128, 130, 255, 256, 260, 300]))
+            arr = rng.integers(-shp[ax], shp[ax], size=m)
+            idx = tuple([slice(None)] * ax + [arr] + ([rand_simple(rng, e) for e in shp[ax + 1:]] if rng.random() < 0.5 else []))
+            case = {"format": fmt, "idx_dtype": str(np.dtype(idt)) if idt else "default", "shape": list(shp), "fill": fill, "dense": d.tolist(),
+                    "axis": ax, "array_len": m, "array": arr.tolist()[:12] + ["..."], "rest": repr(idx[ax + 1:]),
+                    "index": [["s", None, None, None]] * ax + [["a", arr.tolist()]] + [["i", e] if isinstance(e, int) else ["s", e.start, e.stop, e.step] for e in idx[ax + 1:]]}
+            ctx.case(f"C:long-array:{fmt}", case, nontrivial=True)
+            msg = oracle.compare(lambda: x[idx], lambda: d[idx], fill=np.asarray(fill, dtype=d.dtype), err_ok=("index",))
+            if msg:
+                ctx.fail("C", "getitem", case, msg, finding=findings.classify(PID, "getitem", case, msg))
+
+
+def rand_simple(rng, e):
+    r = rng.random()
+    if r < 0.4:
+        return slice(None)
+    if r < 0.7:
+        return int(rng.integers(-e, e))
+    return slice(None, None, -1)
+
+
 def run(ctx):
     ctx.trusted = TRUSTED
     ctx.assumptions = ["NumPy indexing is the specification", "index expressions are drawn from the grammar stated in the property"]
@@ -379,6 +425,7 @@ def run(ctx):
     leg_a(ctx, rng, 600 if ctx.quick else 6000)
     leg_gcxs(ctx, gen.rng_for(ctx.seed, PID + ":gcxs"), 500 if ctx.quick else 6000, 400 if ctx.quick else 5000)
     leg_c(ctx, rng, 150 if ctx.quick else 2000)
+    leg_c_long_arrays(ctx, rng, 40 if ctx.quick else 600)
     boundscheck.leg(ctx, PID, 25 if ctx.quick else 400, classify=findings.classify)  # memory safety of the compiled kernels
     ctx.cov["rule"] = ("T1 grid: (start,stop,step,dim) boxes, generated vs Python; leg A: random COO (rank 0-4) x random index tuple from the "
                        "grammar, model vs implementation on representation; leg A (GCXS): random GCXS arrays of rank 2-4 (every compressed_axes, CSR/CSC, unsorted "
